@@ -133,6 +133,18 @@ def run(ctx):
     extra_params_table(ctx)
     n = 700 if quick else 8000
     hists = [gen_history(ctx.rng, 4 if i % 3 else 10) for i in range(n)]
+    # very long ranges (tens of thousands of pixels along the birth axis, one or two along the other): the pixel count must still be the ceiling
+    for _ in range(10 if quick else 60):
+        ps = ctx.rng.choice([2, 10, 10])
+        K = ctx.rng.randint(30000, 100000)
+        long1 = (0, ps * K + ctx.rng.choice([1, 1, ps // 2, ps - 1]))
+        h = [["ctor", long1, (0, ps), ps]]
+        if ctx.rng.random() < 0.5:
+            h = [["ctor", (0, 4 * ps), (0, ps), ps], ["birth", long1]]
+        if ctx.rng.random() < 0.5:
+            h.append(["pers", (0, ps + 1)])
+        hists.append(h)
+    n = len(hists)
     embs = [TICKS[i % len(TICKS)] for i in range(n)]
     validate(ctx, hists, embs, "V")
 
